@@ -481,8 +481,9 @@ pub fn scenarios(prop: &str, tier: Tier) -> Vec<(FsSc, Vec<Bounds>)> {
 	let mut out = vec![];
 	let (len, kmax, sets) = match tier {
 		Tier::Quick => (3usize, 1usize, pathsets(3)),
-		Tier::Thorough => (4, 1, pathsets(3)),
+		Tier::Thorough => (5, 1, pathsets(3)),
 	};
+	let len = if prop == "C15" { len.min(2) } else { len };
 	let mut alpha: Vec<Chg> = sets.iter().cloned().map(Chg::Paths).collect();
 	alpha.extend([Chg::Native, Chg::Poll]);
 	let others = [Chg::Throttle, Chg::Keyboard, Chg::OnError, Chg::OnAction];
@@ -512,12 +513,14 @@ pub fn scenarios(prop: &str, tier: Tier) -> Vec<(FsSc, Vec<Bounds>)> {
 		let passes: Vec<Bounds> = match tier {
 			Tier::Quick => (0..=kmax).flat_map(both).collect(),
 			Tier::Thorough => {
-				if l >= 4 {
+				if l >= 5 {
 					both(0)
-				} else if l == 3 {
+				} else if l == 4 {
 					(0..=1).flat_map(both).collect()
-				} else {
+				} else if l == 3 {
 					(0..=2).flat_map(both).collect()
+				} else {
+					(0..=3).flat_map(both).collect()
 				}
 			}
 		};
